@@ -984,7 +984,7 @@ class Machine:
             if k.split(":")[1] == n:
                 return VPy(("contract", k))
         if n in ("len", "isinstance", "min", "max", "list", "tuple", "reversed", "enumerate", "zip", "any", "all",
-                 "str", "int", "hash", "type", "getattr", "hasattr", "sorted", "set", "dict", "next", "iter", "deque",
+                 "str", "int", "hash", "type", "getattr", "hasattr", "sorted", "set", "dict", "next", "iter", "deque", "id",
                  "cast", "issubclass", "object", "bool", "super", "replace", "print", "id", "Deque", "setattr", "repr"):
             return VPy(("builtin", n))
         if n in ("config", "hashlib", "typing", "t", "logging"):
